@@ -17,7 +17,7 @@ expectation "same code file" which is a consequence of (a), not a computed value
     configuration with exactly one factor changed: every option value alone, 41 vectors), AllOn (everything switched
     on at once) and Rotation(r) (a 1-wise cover of all option values - 6-7 vectors of the pairwise sample - starting
     at its r-th vector).
-    quick: ALL 201 golden sources + 14 generated programs; source number n runs under Rotation(n mod 32) and AllOn, so
+    quick: ALL 201 golden sources + 16 generated programs; source number n runs under Rotation(n mod 32) and AllOn, so
     every (source, option value) pair is exercised and the corpus as a whole uses the entire pairwise sample (for the
     one megabyte source, t_m16, the listing-producing factors are switched off in the quick tier).
     thorough: every source under all vectors of the pairwise sample and AllOn.
@@ -36,13 +36,20 @@ user-defined FUNCTIONs (proposed_fixes/C17-splitbyte-function-args.diff, applied
 symbols (proposed_fixes/C17-splitbyte-sh7000-literal.diff, known finding until applied).  Seen on the way, outside the
 property's list: the `-g ATMEL` debug file of non-AVR targets contains indeterminate bytes.
 
+  the -g MAP / -g NOICE writers turn a stale errno into a fatal error that deletes the code file of a source without
+  code (proposed_fixes/C17-debuginfo-stale-errno.diff, known finding until applied).
+Generated sources make every report option write something: g_report (INCLUDE found only through -i, IFEXIST probes,
+{EXPORT} macros for -M, SHARED for -c/-p/-a, nested sections with local / public symbols) and g_nocode (labels, symbols,
+a section, an exported macro, but no code; the last file operation is a failed probe).  Factor 25: share file (-c/-p/-a).
+
 Not covered: all 2^k subsets (only pairwise interactions are guaranteed), option values beyond the listed ones,
 interactive mode, Windows-style `/` switches, key files referencing key files (an error by design), locales
 that are not installed (only the LANG/LC_ALL strings matter to nlmessages.c).  The vectors never contain
 code-affecting options; those come from the golden test's asflags and stay in argv.
 
 Mutations of the real code (selftest/b218_mutants.py, scratch copies, all compile; `./check C17 --selftest`), every one
-reported as VIOLATION by the quick tier: -h changing the exponent letter searched by the packed-decimal converter (motpseudo.c ConvertMotoFloatDec: caught on
+reported as VIOLATION by the quick tier: errno reset dropped before the -M macro header write (ReadMacro: stale ENOENT of a path-searched INCLUDE -> fatal ->
+code file deleted; caught on g_report under the single option -M); -h changing the exponent letter searched by the packed-decimal converter (motpseudo.c ConvertMotoFloatDec: caught on
 t_dc/t_68kfloat.. and g_packed under the single option -h); -s also setting DefRelaxedMode; debug bookkeeping (-g) advancing the PC of
 instructions longer than 2; -u shortening 3-byte instructions; ASCMD=@keyfile implying -relaxed; LC_ALL=de* implying
 -relaxed.  (A mutant naming the -E log like the code file loses diagnostics but not code: not C17's business.)
@@ -449,7 +456,7 @@ def main(tier):
         rep.sample({"source": s["name"], "argv": job["argv"], "env": job.get("env"), "cwd": job.get("cwd")})
     return rep.finish(
         rule="configurations = TLC-built designs over 25 factors (report options, option source, cwd, -o, LANG/LC_ALL): "
-             "quick = all 201 golden + 14 generated sources, each under a rotating 1-wise cover of the pairwise sample + "
+             "quick = all 201 golden + 16 generated sources, each under a rotating 1-wise cover of the pairwise sample + "
              "AllOn (every (source, option value) pair); thorough = each under the whole pairwise sample + AllOn; generated "
              "sources also under every single option; plus a repeated plain run and 2 repeated vector runs per source; "
              "distinct = distinct (source, argv, env); every evaluation compares a code file with the plain run's",
